@@ -70,20 +70,21 @@ func IsAbort(r any) (string, bool) {
 }
 
 type Task struct {
-	ID      int
-	Name    string
-	Inst    *Instance
-	Op      int // index of the client operation this task executes (-1 for spawned)
-	wake    chan struct{}
-	state   int
-	wakeAt  time.Duration
-	prio    int
-	FSSteps int // intercepted storage calls made so far by this task
-	fn      func()
-	PanicV  any
-	Stack   string
-	Crashed bool
-	Parent  int
+	ID       int
+	Name     string
+	Inst     *Instance
+	Op       int // index of the client operation this task executes (-1 for spawned)
+	wake     chan struct{}
+	state    int
+	wakeAt   time.Duration
+	prio     int
+	lockWait bool // spinning on a cooperative lock: not enabled while another task can run
+	FSSteps  int  // intercepted storage calls made so far by this task
+	fn       func()
+	PanicV   any
+	Stack    string
+	Crashed  bool
+	Parent   int
 }
 
 const (
@@ -138,8 +139,8 @@ type Sim struct {
 	hash     uint64
 	KeepLog  bool
 	Log      []string
-	OnStep   func(*StepInfo)                              // before the call executes
-	OnResult func(*StepInfo, []reflect.Value)             // after it returned
+	OnStep   func(*StepInfo)                                // before the call executes
+	OnResult func(*StepInfo, []reflect.Value)               // after it returned
 	Override func(*StepInfo) (res []reflect.Value, ok bool) // substitute a result (errno buggify)
 
 	BasePrefix  string // replaced by "$B" in traced paths (per-process scratch dir)
@@ -181,14 +182,14 @@ func New(seed uint64) *Sim {
 func (s *Sim) Install()   { rt.H = s }
 func (s *Sim) Uninstall() { rt.H = nil }
 
-func (s *Sim) Now() time.Time       { return Epoch.Add(s.now) }
+func (s *Sim) Now() time.Time         { return Epoch.Add(s.now) }
 func (s *Sim) Elapsed() time.Duration { return s.now }
 func (s *Sim) Advance(d time.Duration) {
 	s.now += d
 	s.Tracef("clock +%v", d)
 }
-func (s *Sim) Steps() int     { return s.stepNo }
-func (s *Sim) Cur() *Task     { return s.cur }
+func (s *Sim) Steps() int        { return s.stepNo }
+func (s *Sim) Cur() *Task        { return s.cur }
 func (s *Sim) TraceHash() uint64 { return s.hash }
 
 func (s *Sim) Tracef(format string, a ...any) {
@@ -303,6 +304,19 @@ func (s *Sim) pickNext(except *Task) *Task {
 		}
 		best.state = stReady
 		c = []*Task{best}
+	}
+	// a task spinning on a lock is not enabled: under strict priorities two high-priority waiters
+	// would otherwise hand the token to each other for ever while the holder never runs
+	if len(c) > 1 {
+		var en []*Task
+		for _, t := range c {
+			if !t.lockWait {
+				en = append(en, t)
+			}
+		}
+		if len(en) > 0 {
+			c = en
+		}
 	}
 	var pick *Task
 	switch s.Policy {
@@ -477,8 +491,10 @@ func (s *Sim) Sleep(d time.Duration) {
 func (s *Sim) Go(site string, fn func()) {
 	parent := s.cur
 	if parent == nil {
-		// outside any task: run inline after return is not possible; run now
-		fn()
+		// started outside any task (gateway construction): background housekeeping such as the IAM
+		// cache's prune loop. It is left inert: expiry is still exercised because lookups compare the
+		// entry's expiry with the simulated clock; pruning only frees memory.
+		s.Probes["background_goroutine_left_inert"]++
 		return
 	}
 	t := s.NewTask("go@"+site, parent.Inst, -1, fn)
@@ -496,7 +512,9 @@ func (s *Sim) Lock(site string, try func() bool, lock func()) {
 	s.afterResume(t)
 	s.schedPoint(t)
 	spins := 0
+	defer func() { t.lockWait = false }()
 	for !try() {
+		t.lockWait = true
 		spins++
 		s.Tracef("t%d lockwait %s", t.ID, stableOf(site))
 		if spins > 10000 {
